@@ -73,3 +73,25 @@ Theorem C08_outcome_table o file b pat content :
   line_pattern o file b = Err E_ORACLE_MISS.
 Proof. exact (line_pattern_outcomes o file b pat content). Qed.
 Print Assumptions C08_outcome_table.
+
+(* Blank lines never count - a line of whitespace only (any Unicode whitespace) passes every pattern. *)
+Theorem C08_blank_lines_never_count o pat l : all_ws l -> lp_passes o pat l.
+Proof. exact (blank_line_passes o pat l). Qed.
+Print Assumptions C08_blank_lines_never_count.
+
+(* The line a diagnostic designates is never blank. *)
+Theorem C08_failing_line_not_blank o pat l : lp_fails o pat l -> ~ all_ws l.
+Proof. exact (failing_line_not_blank o pat l). Qed.
+Print Assumptions C08_failing_line_not_blank.
+
+(* No line both passes and fails - the two outcomes of C08_outcome_table exclude each other. *)
+Theorem C08_pass_fail_exclusive o pat l : lp_passes o pat l -> lp_fails o pat l -> False.
+Proof. exact (lp_passes_fails_exclusive o pat l). Qed.
+Print Assumptions C08_pass_fail_exclusive.
+
+(* Inserting a blank line anywhere changes nothing about whether every line passes, hence (C08_validator_ok_iff_all_match) about whether the block is silent. *)
+Theorem C08_blank_insertion_irrelevant o pat pre w post :
+  all_ws w ->
+  (Forall (lp_passes o pat) (pre ++ w :: post) <-> Forall (lp_passes o pat) (pre ++ post)).
+Proof. exact (all_pass_blank_insert o pat pre w post). Qed.
+Print Assumptions C08_blank_insertion_irrelevant.
